@@ -45,7 +45,8 @@ struct Monitor
         events++;
         const std::string pt = v.point;
         const long k = (long) v.k;
-        const LD grow = std::sqrt((LD) (1 + events));
+        // Lanczos re-orthogonalises fully at every step; Arnoldi only when needed (0.717 test), so its drift of V'V - I adds up over the restarts
+        const LD grow = lanczos ? std::sqrt((LD) (1 + events)) : (LD) (1 + n_compress);
         const LD kk = std::max<long>(k, 10);
         if (pt == "breakdown" || pt == "breakdown-unresolved")
         {
